@@ -252,6 +252,10 @@ def gen_aig(rng, ty, small=False):
     I = rng.choice([0, 1, 2, 4])
     L = rng.choice([0, 0, 1, 3])
     A = rng.choice([0, 1, 3, 8])
+    wide = (not small) and mlim >= 200 and (rng.random() < 0.12 or FORCE_WIDE)   # far-apart gate inputs: multi-byte binary deltas
+    if wide:
+        I = rng.choice([70, 100, 130])
+        A = rng.choice([1, 3, 8])
     while I + L + A > mlim:
         A = max(0, A - 1); I = max(0, I - 1) if A == 0 else I; L = max(0, L - 1) if (A == 0 and I == 0) else L
     M = I + L + A
@@ -262,6 +266,9 @@ def gen_aig(rng, ty, small=False):
         code = 2 * (I + L + 1 + j)
         a = rng.randrange(0, code)
         b = rng.randrange(0, a + 1)
+        if wide and rng.random() < 0.7:
+            a = rng.randrange(0, max(1, code - 128))
+            b = rng.randrange(0, max(1, a - 127)) if rng.random() < 0.7 else rng.randrange(0, a + 1)
         ands.append((code, a, b))
     latches = []
     for j in range(L):
@@ -273,16 +280,24 @@ def gen_aig(rng, ty, small=False):
     B, C, J, F = [cnt() for _ in range(4)]
     val = {"ty": ty, "M": M, "I": I, "latches": latches, "outputs": [anylit() for _ in range(O)],
            "bad": [anylit() for _ in range(B)], "constraints": [anylit() for _ in range(C)],
-           "justice": [[anylit() for _ in range(rng.choice([0, 1, 2]))] for _ in range(J)],
+           "justice": [[anylit() for _ in range(k)] for k in justice_sizes(rng, J)],
            "fairness": [anylit() for _ in range(F)], "ands": ands, "symbols": [], "comment": None}
     # symbols: index below the section's own count
     for kind, count in (("i", I), ("l", L), ("o", O), ("b", B), ("c", C), ("j", J), ("f", F)):
         for idx in range(count):
-            if rng.random() < 0.4:
+            if rng.random() < (0.03 if wide else 0.4):
                 val["symbols"].append((kind, idx, gen_name(rng)))
     if rng.random() < 0.4:
         val["comment"] = rng.choice(["", "a comment", "two\nlines", "c\nnested c", "utf8 äö ✓"])
     return val
+
+
+def justice_sizes(rng, J):
+    """sizes of the justice properties, empty ones in every position (leading, between, trailing, consecutive)"""
+    if J >= 3 and rng.random() < 0.4:
+        pat = rng.choice([[1, 0, 2], [0, 0, 1], [2, 0, 0, 1], [0, 1, 0, 1], [1, 1, 0]])
+        return (pat + [rng.choice([0, 1, 2]) for _ in range(J)])[:J]
+    return [rng.choice([0, 1, 2, 3]) for _ in range(J)]
 
 
 def gen_name(rng):
@@ -312,6 +327,10 @@ def varint(n):
         else:
             out.append(b)
             return bytes(out)
+
+
+FORCE_WIDE = False
+LAST = {}     # side information about the most recently rendered document (offsets of the binary and-gate section)
 
 
 def render_aig(val, binary):
@@ -344,8 +363,10 @@ def render_aig(val, binary):
     for l in val["fairness"]:
         line(str(l)); item_ends.append(len(out))
     if binary:
+        g0 = len(out)
         for (code, a, b) in val["ands"]:
             out.extend(varint(code - a) + varint(a - b)); item_ends.append(len(out))
+        LAST["gate_span"] = (g0, len(out))
     else:
         for (code, a, b) in val["ands"]:
             line("%d %d %d" % (code, a, b)); item_ends.append(len(out))
@@ -373,6 +394,30 @@ def aig_trace(val, binary):
     if val["comment"] is not None:
         items.append("C:%s" % hexs(val["comment"].encode()))
     return ";".join(items) + " => ok"
+
+
+def aig_whole_trace(val, binary=False):
+    """expected trace of the whole-file API (Parser::parse -> Aig / OrderedAig), in the format of show_aig /
+    show_ordered_aig in the harness"""
+    c = lambda v: ",".join(str(x) for x in v)
+    hdr = "H(%s)" % ",".join(str(x) for x in aig_header_fields(val))
+    syms = ",".join("s:%s%d:%s" % (k, idx, hexs(name.encode())) for (k, idx, name) in val["symbols"])
+    if binary:
+        a = "OAIG(M=%d I=%d L=[%s] O=[%s] B=[%s] C=[%s] J=[%s] F=[%s] A=[%s] S=[%s] c=%s)" % (
+            val["M"], val["I"], ",".join("%d/%s" % (nx, init) for (st, nx, init) in val["latches"]),
+            c(val["outputs"]), c(val["bad"]), c(val["constraints"]),
+            ",".join("(%s)" % c(j) for j in val["justice"]), c(val["fairness"]),
+            ",".join("%d&%d" % (g[1], g[2]) for g in val["ands"]), syms,
+            hexs(val["comment"].encode()) if val["comment"] is not None else "none")
+        return hdr + ";" + a + " => ok"
+    a = "AIG(M=%d I=[%s] L=[%s] O=[%s] B=[%s] C=[%s] J=[%s] F=[%s] A=[%s] S=[%s] c=%s)" % (
+        val["M"], c(2 * (i + 1) for i in range(val["I"])),
+        ",".join("%d/%d/%s" % (st, nx, init) for (st, nx, init) in val["latches"]),
+        c(val["outputs"]), c(val["bad"]), c(val["constraints"]),
+        ",".join("(%s)" % c(j) for j in val["justice"]), c(val["fairness"]),
+        ",".join("%d=%d&%d" % g for g in val["ands"]), syms,
+        hexs(val["comment"].encode()) if val["comment"] is not None else "none")
+    return hdr + ";" + a + " => ok"
 
 
 # ------------------------------------------------------------------ BTOR2
@@ -515,8 +560,12 @@ def gen_doc(rng, parser=None, valid_only=False):
         ty = rng.choice(list(AIGER_TYPES))
         val = gen_aig(rng, ty)
         data, _ = render_aig(val, parser == "aig")
-        flags = "-"
-        exp = aig_trace(val, parser == "aig")
+        if rng.random() < 0.35:      # the whole-file API (Parser::parse)
+            flags = "w"
+            exp = aig_whole_trace(val, parser == "aig")
+        else:
+            flags = "-"
+            exp = aig_trace(val, parser == "aig")
     else:
         ty = "-"
         lines = gen_btor2_lines(rng)
@@ -608,6 +657,12 @@ def limit_cases(rng):
             out.append((tag, ty, "-", ("%s %d 0 0 1 0\n%d\n" % (tag, mmax, 2 * mmax + 2)).encode(), "REJECT"))
             out.append((tag, ty, "-", ("%s %d 0 0 0 0\n" % (tag, mmax + 1)).encode(), "REJECT"))
             out.append((tag, ty, "-", ("%s 2 1 1 0 1\n" % tag).encode() + (b"4 1\n" if binary else b"2\n4 1\n") , "REJECT"))   # I+L+A > M
+            # the same budget, complete documents, the excess in each of I, L, A (binary literals are implicit: only the header check stops them)
+            out.append((tag, ty, "-", ("%s 2 1 1 0 1\n" % tag).encode() + (b"0\n\x02\x02" if binary else b"2\n4 0\n6 4 2\n"), "REJECT"))
+            out.append((tag, ty, "-", ("%s 2 1 2 0 0\n" % tag).encode() + (b"0\n0\n" if binary else b"2\n4 0\n6 0\n"), "REJECT"))
+            out.append((tag, ty, "-", ("%s 1 2 0 0 0\n" % tag).encode() + (b"" if binary else b"2\n4\n"), "REJECT"))
+            out.append((tag, ty, "-", ("%s 3 1 1 0 1\n" % tag).encode() + (b"0\n\x02\x02" if binary else b"2\n4 0\n6 4 2\n"),
+                        "H(3,1,1,0,1,0,0,0,0);" + ("l:0,0;a:4,2" if binary else "i:2;l:4,0,0;a:6,4,2") + " => ok"))
             out.append((tag, ty, "-", ("%s 01 0 0 0 0\n" % tag).encode(), "REJECT"))                                            # leading zero
             out.append((tag, ty, "-", ("%s 1 0 0 2 0\n1\n" % tag).encode(), "REJECT"))                                          # fewer outputs than declared
             out.append((tag, ty, "-", ("%s 1 0 0 1 0\n1\n0\n" % tag).encode(), "REJECT"))                                       # more than declared
@@ -623,6 +678,43 @@ def limit_cases(rng):
         data = ("%d sort bitvec 1\n" % n).encode()
         out.append(("btor2", "-", "-", data, exp))
     return [c for c in out if c[4] is not None]
+
+
+def hostile_cases():
+    """documents whose declared counts are far larger than what follows (C05: resources must follow the bytes
+    consumed, not the counts declared); (parser, ty, flags, data)"""
+    out = []
+    for n in (4000000, 2 ** 32, 2 ** 40, 2 ** 63, U64):
+        out.append(("btor2", "-", "-", ("1 sort bitvec 1\n2 input 1\n3 justice %d 2 2\n" % n).encode()))
+        out.append(("btor2", "-", "-", ("1 sort bitvec 1\n2 input 1\n3 justice %d" % n).encode()))
+        out.append(("btor2", "-", "-", ("1 sort bitvec %d\n2 sort array 1 1\n3 const 1 %s\n" % (n, "1" * 64)).encode()))
+        for fmt in ("cnf", "wcnf", "gcnf"):
+            extra = "" if fmt == "cnf" else " %d" % min(n, U64)
+            out.append((fmt, "i64", "-", ("p %s %d %d%s\n1 -2 0\n" % (fmt, min(n, 2 ** 62), min(n, 2 ** 62), extra)).encode()))
+        for tag in ("aag", "aig"):
+            for ty in ("u64", "usize"):
+                out.append((tag, ty, "w", ("%s %d 0 0 0 0 %d %d %d %d\n" % (tag, min(n, 2 ** 62), n, n, n, n)).encode()))
+                out.append((tag, ty, "-", ("%s %d 0 %d %d 0\n1\n" % (tag, min(n, 2 ** 62), min(n, 2 ** 61), n)).encode()))
+                out.append((tag, ty, "w", ("%s %d %d 0 0 0\n" % (tag, min(n, 2 ** 62), min(n, 2 ** 62))).encode()))
+                out.append((tag, ty, "w", ("%s 0 0 0 0 0 0 0 %d\n%d\n" % (tag, n, n)).encode()))
+    return out
+
+
+def decorate(rng, lines, target, fillers, indent):
+    """insert filler lines (comments, blank lines) before any line and optionally indent lines; returns
+    (text, 1-based line number of lines[target], indentation of that line)"""
+    out = []
+    line_no = ind = 0
+    plain = rng.random() < 0.3
+    for i, l in enumerate(lines):
+        if not plain:
+            for _ in range(rng.choice([0, 0, 0, 1, 2, 3])):
+                out.append(rng.choice(fillers))
+        k = rng.choice([0, 0, 1, 3]) if (indent and not plain) else 0
+        out.append(" " * k + l)
+        if i == target:
+            line_no, ind = len(out), k
+    return "\n".join(out) + "\n", line_no, ind
 
 
 # ------------------------------------------------------------------ C08: single-token corruptions with known position
@@ -664,9 +756,10 @@ def corruption_cases(rng, n):
             else:
                 new = rng.choice(["", "-"]) + "9" * 30
             lines[li][ti] = new
-            text = "\n".join(" ".join(l) for l in lines) + "\n"
             col = 1 + sum(len(t) + 1 for t in lines[li][:ti])
-            out.append((kind, ty, "-", text.encode(), "ERRAT %d %d %d" % (li + 1, col, col + len(new) - 1 + (1 if new in ("1x", "1-") else 0))))
+            text, line_no, ind = decorate(rng, [" ".join(l) for l in lines], li, ["c a comment", "c", "", "  ", "c 1 2 0"], True)
+            col += ind
+            out.append((kind, ty, "-", text.encode(), "ERRAT %d %d %d" % (line_no, col, col + len(new) - 1 + (1 if new in ("1x", "1-") else 0))))
         elif kind == "aag":
             ty = rng.choice(list(AIGER_TYPES))
             val = gen_aig(rng, ty)
@@ -701,5 +794,6 @@ def corruption_cases(rng, n):
             toks[ti] = new
             col = 1 + sum(len(t) + 1 for t in toks[:ti])
             lines[li] = " ".join(toks)
-            out.append(("btor2", "-", "-", ("\n".join(lines) + "\n").encode(), "ERRAT %d %d %d" % (li + 1, col, col + len(new))))
+            text, line_no, ind = decorate(rng, lines, li, ["; a comment", ";", "", "", " "], False)
+            out.append(("btor2", "-", "-", text.encode(), "ERRAT %d %d %d" % (line_no, col, col + len(new))))
     return out
